@@ -45,6 +45,25 @@ int main(int argc, char **argv) {
     gp.narrow_int32 = rep.args().Get("slice") == "asan";
     if (c09) { gp.max_extra_atts = 3; }
     vf::Geo g = vf::GenGeo(r, gp);
+    if (!c09 && r.below(2500) == 0) {
+      // Point counts on the boundaries where the sequential mesh coder changes its index width (256, 2^16; 2^21 is
+      // left to the thorough tier): a zig-zag strip over exactly N points, position plus a small integer attribute.
+      const uint32_t sizes[] = {255, 256, 257, 65535, 65536, 65537, 255, 256, 257};
+      uint32_t N = sizes[r.below(9)];
+      if (rep.args().tier == "thorough" && r.below(40) == 0) N = 2097151 + static_cast<uint32_t>(r.below(3));
+      vf::Geo b;
+      b.is_mesh = true; b.npoints = N; b.family = "boundary-size-" + std::to_string(N) + "+"; b.pos_att = 0;
+      for (uint32_t i = 0; i + 2 < N; ++i) b.faces.push_back((i & 1) ? std::array<uint32_t, 3>{i + 1, i, i + 2} : std::array<uint32_t, 3>{i, i + 1, i + 2});
+      vf::Attr pa; pa.type = GeometryAttribute::POSITION; pa.dt = DT_FLOAT32; pa.nc = 3; pa.unique_id = 0; pa.elem = 0; pa.nvals = N;
+      pa.data.resize(static_cast<size_t>(N) * 12);
+      for (uint32_t i = 0; i < N; ++i) { vf::PutF(pa.val(i), 0.5f * i); vf::PutF(pa.val(i) + 4, (i & 1) ? 1.f : 0.f); vf::PutF(pa.val(i) + 8, 0.001f * (i % 97)); }
+      vf::Attr ia; ia.type = GeometryAttribute::GENERIC; ia.dt = DT_UINT16; ia.nc = 1; ia.unique_id = 5; ia.elem = 0; ia.nvals = N;
+      ia.data.resize(static_cast<size_t>(N) * 2);
+      for (uint32_t i = 0; i < N; ++i) { uint16_t v = static_cast<uint16_t>(i % 251); memcpy(ia.val(i), &v, 2); }
+      b.atts.push_back(pa); b.atts.push_back(ia);
+      g = b;
+      rep.count("boundary_size_meshes/" + std::to_string(N));
+    }
     if (r.below(8) == 0) { const int pads[] = {1, 4, 12}; g.pad_stride = pads[r.below(3)]; g.family += "padded-stride+"; }
     vf::EncOpts o = vf::GenOpts(r, g);
     if (!c09) o.track = r.below(2) != 0;  // tracking of encoded properties must not influence the stream (C09 needs it on)
